@@ -224,11 +224,11 @@ def run(ctx):
             pairs = pairs[:70] + [(shadow[0], shadow[1]), (shadow[1], shadow[0])]
         else:
             r.shuffle(pairs)
-            pairs = pairs[:600] + [(shadow[0], shadow[1]), (shadow[1], shadow[0])]
+            pairs = pairs[:1500] + [(shadow[0], shadow[1]), (shadow[1], shadow[0])]
         for p in pairs:
             jobs.append((list(p), None, None, "seq"))
-        for _ in range(12 if thorough else 3):
-            k = r.randrange(3, 7)
+        for _ in range(40 if thorough else 3):
+            k = r.randrange(3, 9)
             jobs.append(([r.choice(items) for _ in range(k)], None, None, "seq"))
         # hash seeds, cwd, populated directory
         for it in items[: (len(items) if thorough else 6)]:
